@@ -300,10 +300,10 @@ def check_reinit(ctx, pool, rule):
             if r and r[0] == 'func':
                 ctx.used(r[1])
                 reinit |= resets(r[1].node.body)
-    exceptions = {'_closed'}
+    exceptions = {'_closed', '_queues', '_workers'}      # persistent by design: the closed set, and the tables of workers and their result pipes (who may change them: C07.R7)
     for attr, f in sorted(mutated.items()):
         if attr in exceptions:
-            ctx.ob(rule, f'Pool.run: `{attr}` is persistent by design (dead workers are never handed work again)', True)
+            ctx.ob(rule, f'Pool.run: `{attr}` is persistent by design', True)
             continue
         ctx.check(rule, f'Pool.run re-initialises `{attr}` (mutated by {f.short}) in its prologue', attr in reinit, 'Pool.run', f'not-reinitialised:{attr}',
                   f'`self.{attr}` is mutated during a run but not re-initialised at the start of the next one: bookkeeping of an earlier (e.g. failed) run leaks into the next run',
